@@ -66,23 +66,57 @@ func Stream(t *rapid.T, cfg StreamCfg) ([]model.Ev, map[string]bool) {
 
 func (g *streamGen) deepChain(t *rapid.T, out *[]model.Ev) {
 	d := rapid.IntRange(31, 140).Draw(t, "deep")
-	var closers []model.Ev
+	// every level may hold small siblings in front of and behind the deep child:
+	// what an encoder or parser remembers about an outer level (first element?
+	// array or object? how many still to come?) is needed again on the way out
+	type lvl struct {
+		obj  bool
+		post int
+	}
+	var levels []lvl
 	for i := 0; i < d; i++ {
+		pre, post := 0, 0
+		switch rapid.IntRange(0, 5).Draw(t, "dsib") {
+		case 0:
+			pre = 1
+		case 1:
+			post = 1
+		case 2:
+			pre, post = 1, 2
+		}
 		ann := -1
 		if rapid.Bool().Draw(t, "dann") {
-			ann = 1
+			ann = 1 + pre + post
 		}
-		if rapid.Bool().Draw(t, "dobj") {
-			*out = append(*out, model.Ev{K: model.KObjStart, L: ann}, model.Ev{K: model.KKey, S: []byte("k")})
-			closers = append(closers, model.Ev{K: model.KObjEnd})
+		obj := rapid.Bool().Draw(t, "dobj")
+		if obj {
+			*out = append(*out, model.Ev{K: model.KObjStart, L: ann})
+			for j := 0; j < pre; j++ {
+				*out = append(*out, model.Ev{K: model.KKey, S: []byte("p")}, model.Ev{K: model.KBool, B: true})
+			}
+			*out = append(*out, model.Ev{K: model.KKey, S: []byte("k")})
 		} else {
 			*out = append(*out, model.Ev{K: model.KArrStart, L: ann})
-			closers = append(closers, model.Ev{K: model.KArrEnd})
+			for j := 0; j < pre; j++ {
+				*out = append(*out, model.Ev{K: model.KBool, B: true})
+			}
 		}
+		levels = append(levels, lvl{obj, post})
 	}
 	g.scalar(t, out, "")
-	for i := len(closers) - 1; i >= 0; i-- {
-		*out = append(*out, closers[i])
+	for i := len(levels) - 1; i >= 0; i-- {
+		l := levels[i]
+		for j := 0; j < l.post; j++ {
+			if l.obj {
+				*out = append(*out, model.Ev{K: model.KKey, S: []byte{'q', byte('0' + j)}})
+			}
+			*out = append(*out, model.Ev{K: model.KNil})
+		}
+		if l.obj {
+			*out = append(*out, model.Ev{K: model.KObjEnd})
+		} else {
+			*out = append(*out, model.Ev{K: model.KArrEnd})
+		}
 	}
 }
 
